@@ -25,8 +25,11 @@ ALSO = {"C07": ["C19", "C06"], "C08": ["C06", "C19"], "C17": ["C19"], "C04": ["C
 
 
 def sh(cmd, cwd, timeout=1500, env=None):
-    p = subprocess.run(cmd, cwd=cwd, shell=True, stdout=subprocess.PIPE, stderr=subprocess.STDOUT, timeout=timeout,
-                       env=dict(os.environ, **(env or {})))
+    try:
+        p = subprocess.run(cmd, cwd=cwd, shell=True, stdout=subprocess.PIPE, stderr=subprocess.STDOUT, timeout=timeout,
+                           env=dict(os.environ, **(env or {})), start_new_session=True)
+    except subprocess.TimeoutExpired:
+        return 124, "TIMEOUT"
     return p.returncode, p.stdout.decode(errors="replace")
 
 
